@@ -993,10 +993,12 @@ def immersion_decisions(repo, rep, rule):
     t = ex(ifs[0]["inner"][0])
     lab_reads = [x for x in _subtrees(t) if x[0] == "idx" and x[1] == ("var", "imo") or (x[0] == "idx" and x[1] == ("var", "imd"))]
     ok2 = bool(lab_reads)
-    le_ = [x for x in _subtrees(t) if x[0] == "bin" and x[1] in ("<=", ">=") and x[2][0] == "var" and x[3][0] == "var"]
+    le_ = [x for x in _subtrees(t) if x[0] == "bin" and x[1] in ("<=", ">=", "<", ">") and x[2][0] == "var" and x[3][0] == "var"]
     if len(le_) != 1:
         raise AnalysisError("pt_fld step 2: closeness comparison not found")
-    dv, ev = (le_[0][2][1], le_[0][3][1]) if le_[0][1] == "<=" else (le_[0][3][1], le_[0][2][1])
+    # whichever way the comparison is written, the truth table below decides it: the candidate must be accepted when it is AS close as the best so far
+    # (the best-so-far starts at the full range of the spectrum, so a strict test leaves a bin whose only labelled neighbours are that far away unassigned)
+    dv, ev = (le_[0][2][1], le_[0][3][1]) if le_[0][1] in ("<=", "<") else (le_[0][3][1], le_[0][2][1])
     for b in (WSHED, LA, LB):
         for (df, e1) in ((1, 2), (2, 2), (3, 2)):
             ncomb += 1
